@@ -1,6 +1,8 @@
 package rules
 
 import (
+	"go/token"
+	"go/constant"
 	"sort"
 	"strings"
 
@@ -41,6 +43,8 @@ func checkC09(r *Report, p *Program) {
 	r12_3(r, p)
 	r09_10(r, p)
 	objectMapContracts(r, p, "R09.11")
+	r09_tables(r, p, "R09.12")
+	r09_recordSet(r, p, "R09.13")
 	// a failed claim / revision write stops the sync before children are reconciled from an incomplete view (R12.1 on the revision code)
 	errorRule(r, p, "R09.9", 8, func(f *ssa.Function) bool {
 		file := p.File(f)
@@ -467,5 +471,358 @@ func r09_10(r *Report, p *Program) {
 			}
 		}
 		r.Check(rule, FK(f)+"[labels-source]", p.Pos(f.Pos()), ok, "labels := parent.spec.template.metadata.labels", why)
+	}
+}
+
+// r09_tables: the decisions of syncRevisions, each in both directions.
+func r09_tables(r *Report, p *Program, rule string) {
+	r.Rule(rule, "syncRevisions decisions: single-hook shortcut ⇔ no rolling kind ∨ (parent deleting ∧ nothing to finalize); an observed revision becomes latest's record ⇔ its patch equals the current parent's, else a materialised older parent; a new revision is created ⇔ latest has none; the rollout goes on ⇔ no per-revision hook call failed; a revision is persisted ⇔ it exists after pruning")
+	r.Floor(rule, 5)
+	f := fn(r, p, rule, "controller/composite.parentController.syncRevisions")
+	if f == nil {
+		return
+	}
+	one := func(suf string) ssa.Instruction {
+		cs := callsTo(f, false, suf)
+		if len(cs) != 1 {
+			return nil
+		}
+		return cs[0].Instr.(ssa.Instruction)
+	}
+	hook, claim, newRev, roll, manage := one("parentController.callHook"), one("parentController.claimRevisions"), one("parentController.newControllerRevision"), one("parentController.syncRollingUpdate"), one("parentController.manageRevisions")
+	if hook == nil || claim == nil || newRev == nil || roll == nil || manage == nil {
+		r.Fail(rule, FK(f), p.Pos(f.Pos()), "anchor-lost", "expected exactly one direct callHook, claimRevisions, newControllerRevision, syncRollingUpdate and manageRevisions call in syncRevisions")
+		return
+	}
+	entry := []engine.Point{{B: f.Blocks[0]}}
+	anyRolling := func(l Lit) bool { return strings.Contains(l.Atom, "updateStrategyMap.anyRolling)(") }
+	deleting := func(l Lit) bool { return strings.HasSuffix(l.Atom, "GetDeletionTimestamp)(p1) == nil)") }
+	shouldFin := func(l Lit) bool { return strings.Contains(l.Atom, "finalizer.Manager.ShouldFinalize)(") }
+	// (a) shortcut
+	ok, why := true, ""
+	if w := unguarded(f, entry, hook, func(l Lit) bool { return !l.Pos && (anyRolling(l) || shouldFin(l)) }); w != nil {
+		ok, why = false, "the single-hook shortcut is taken although a kind is rolling and the parent has to be finalized or is alive; "+pathWhy(w)
+	}
+	for _, b := range f.Blocks {
+		for i := range b.Succs {
+			if l, has := engine.EdgeLit(b, i); has && shouldFin(l) {
+				if w := unguarded(f, entry, b.Instrs[len(b.Instrs)-1], func(l Lit) bool { return !l.Pos && deleting(l) || !l.Pos && anyRolling(l) }); w != nil && ok {
+					ok, why = false, "whether there is something to finalize decides the shortcut for a parent that is not being deleted: a live parent without finalize hook never gets a rollout"
+				}
+			}
+		}
+	}
+	if w := unguarded(f, entry, claim, func(l Lit) bool { return l.Pos && anyRolling(l) }); w != nil {
+		ok, why = false, "revisions are claimed although no kind is rolling"
+	}
+	if w := unguarded(f, entry, claim, func(l Lit) bool { return l.Pos && (deleting(l) || shouldFin(l)) }); w != nil {
+		ok, why = false, "the rollout path is taken for a parent that is being deleted with nothing to finalize"
+	}
+	r.Check(rule, FK(f)+"[shortcut]", p.InstrPos(hook), ok, "shortcut ⇔ ¬anyRolling ∨ (deleting ∧ ¬shouldFinalize)", why)
+
+	// (b) the loop over the observed revisions
+	var obs *engine.RangeLoop
+	var errLoop, persistLoop *engine.RangeLoop
+	for _, l := range engine.RangeLoops(f) {
+		x := E(l.X)
+		if strings.HasSuffix(x, "parentController.claimRevisions)(p0, p1)#0") {
+			obs = l
+		}
+	}
+	ok, why = obs != nil, "the loop over the observed revisions was not found"
+	isLatestStore := func(in ssa.Instruction) bool {
+		st, isS := in.(*ssa.Store)
+		if !isS {
+			return false
+		}
+		fa, isFA := st.Addr.(*ssa.FieldAddr)
+		if !isFA || fieldName(fa) != "revision" {
+			return false
+		}
+		al, isAl := fa.X.(*ssa.Alloc)
+		return isAl && !obs.InBody(al.Block())
+	}
+	if obs != nil {
+		paths, err := engine.EnumPaths(f, engine.EnumOpts{Start: obs.Body, Leave: func(b *ssa.BasicBlock) bool { return b == obs.Header || b == obs.Exit },
+			Effect: func(in ssa.Instruction) bool {
+				if isLatestStore(in) || isCallTo(in, "composite.applyPatch") {
+					return true
+				}
+				c, isC := in.(*ssa.Call)
+				return isC && isCallTo(in, "builtin.append") && strings.Contains(c.Type().String(), "parentRevision")
+			}})
+		if err != nil {
+			ok, why = false, err.Error()
+		}
+		for _, pa := range paths {
+			if pa.EndKind == "return" {
+				continue // error exits (checked by the error discipline)
+			}
+			same := val(pa, -1, func(a string) bool {
+				return strings.HasPrefix(a, "call(controller/common.DeepEqual)(") && strings.Contains(a, "composite.makePatch)(")
+			})
+			var effs []string
+			for _, e := range pa.Effects {
+				switch {
+				case isLatestStore(e):
+					effs = append(effs, "latest.revision=")
+				case isCallTo(e, "composite.applyPatch"):
+					effs = append(effs, "applyPatch")
+				default:
+					effs = append(effs, "append")
+				}
+			}
+			got := strings.Join(effs, ",")
+			want := map[int]string{1: "latest.revision=", -1: "applyPatch,append"}[same]
+			if same == 0 {
+				ok, why = false, "an observed revision is processed without comparing its patch with the current parent's"
+			} else if got != want {
+				ok, why = false, sf("for patch-equals-current=%d an iteration does [%s], want [%s]", same, got, want)
+			}
+		}
+	}
+	r.Check(rule, FK(f)+"[observed-revisions]", p.Pos(f.Pos()), ok, "equal patch ⇒ latest's record; else materialised and kept", why)
+
+	// (c) a new revision ⇔ latest has none
+	ok, why = true, ""
+	noRev := func(l Lit) bool {
+		return l.Atom == "(new<controller/composite.parentRevision>.revision == nil)"
+	}
+	if w := unguarded(f, entry, newRev, func(l Lit) bool { return l.Pos && noRev(l) }); w != nil {
+		ok, why = false, "a new ControllerRevision is created although the latest parent state already has one"
+	}
+	if obs != nil {
+		var gos []ssa.Instruction
+		for _, b := range f.Blocks {
+			for _, in := range b.Instrs {
+				if _, isGo := in.(*ssa.Go); isGo {
+					gos = append(gos, in)
+				}
+			}
+		}
+		if len(gos) != 1 {
+			ok, why = false, "expected one fan-out of hook calls"
+		} else if w := (engine.Query{Fn: f, From: []engine.Point{{B: obs.Exit}}, Target: func(in ssa.Instruction) bool { return in == gos[0] },
+			CutInstr: func(in ssa.Instruction) bool { return in == newRev },
+			CutEdge:  func(b *ssa.BasicBlock, i int, l *Lit) bool { return l != nil && !l.Pos && noRev(*l) }}).Find(); w != nil {
+			ok, why = false, "the latest parent state has no ControllerRevision and none is created: the rollout's record is never persisted"
+		}
+	}
+	r.Check(rule, FK(f)+"[new-revision]", p.InstrPos(newRev), ok, "created ⇔ latest.revision == nil", why)
+
+	// (d) the rollout goes on ⇔ no hook call failed;  (e) persisted ⇔ revision != nil
+	for _, l := range engine.RangeLoops(f) {
+		for _, b := range l.BodyBlocks() {
+			for i := range b.Succs {
+				if lt, has := engine.EdgeLit(b, i); has {
+					if strings.HasSuffix(lt.Atom, ".syncError == nil)") && errLoop == nil {
+						errLoop = l
+					}
+					if strings.HasSuffix(lt.Atom, ".revision == nil)") && strings.Contains(lt.Atom, "pruneParentRevisions") && persistLoop == nil {
+						persistLoop = l
+					}
+				}
+			}
+		}
+	}
+	ok, why = errLoop != nil, "no loop inspecting the per-revision hook errors before the rollout step"
+	if errLoop != nil {
+		if w := unguarded(f, []engine.Point{{B: errLoop.Body}}, errLoop.Header.Instrs[0], func(l Lit) bool { return l.Pos && strings.HasSuffix(l.Atom, ".syncError == nil)") }); w != nil {
+			ok, why = false, "a revision whose hook call failed is passed over"
+		}
+		for _, b := range errLoop.BodyBlocks() {
+			if rt, isR := b.Instrs[len(b.Instrs)-1].(*ssa.Return); isR {
+				if w := unguarded(f, []engine.Point{{B: errLoop.Body}}, rt, func(l Lit) bool { return !l.Pos && strings.HasSuffix(l.Atom, ".syncError == nil)") }); w != nil {
+					ok, why = false, "the sync is aborted for a revision whose hook call succeeded"
+				}
+				if !isErrReturn(rt) {
+					ok, why = false, "a failed hook call ends the sync without an error"
+				}
+			}
+		}
+		if w := (engine.Query{Fn: f, From: entry, Target: func(in ssa.Instruction) bool { return in == roll }, CutInstr: func(in ssa.Instruction) bool { return in.Block() == errLoop.Header }}).Find(); w != nil {
+			ok, why = false, "the rollout step can be reached without inspecting the hook errors"
+		}
+	}
+	r.Check(rule, FK(f)+"[hook-errors]", p.InstrPos(roll), ok, "abort ⇔ some pr.syncError != nil", why)
+
+	ok, why = persistLoop != nil, "no loop collecting the revisions to persist"
+	if persistLoop != nil {
+		var app ssa.Instruction
+		for _, b := range persistLoop.BodyBlocks() {
+			for _, in := range b.Instrs {
+				if c, isC := in.(*ssa.Call); isC && isCallTo(in, "builtin.append") && strings.Contains(c.Type().String(), "ControllerRevision") {
+					app = in
+				}
+			}
+		}
+		if app == nil {
+			ok, why = false, "no revision is collected for persisting"
+		} else {
+			has := func(l Lit) bool { return strings.HasSuffix(l.Atom, ".revision == nil)") }
+			if w := unguarded(f, []engine.Point{{B: persistLoop.Body}}, app, func(l Lit) bool { return !l.Pos && has(l) }); w != nil {
+				ok, why = false, "a nil revision is handed to manageRevisions"
+			}
+			if w := (engine.Query{Fn: f, From: []engine.Point{{B: persistLoop.Body}}, Target: func(in ssa.Instruction) bool { return in.Block() == persistLoop.Header },
+				CutInstr: func(in ssa.Instruction) bool { return in == app },
+				CutEdge:  func(b *ssa.BasicBlock, i int, l *Lit) bool { return l != nil && l.Pos && has(*l) }}).Find(); w != nil {
+				ok, why = false, "a surviving parent revision's ControllerRevision is not handed to manageRevisions: it is deleted although children are still assigned to it"
+			}
+		}
+	}
+	r.Check(rule, FK(f)+"[persisted]", p.InstrPos(manage), ok, "persisted ⇔ pr.revision != nil", why)
+}
+
+// phiIncomingOnPath: the operand phi v takes on path pa (by the block that precedes v's block on the path).
+func phiIncomingOnPath(pa engine.Path, ph *ssa.Phi) ssa.Value {
+	for i, b := range pa.Blocks {
+		if b == ph.Block() && i > 0 {
+			for j, pr := range b.Preds {
+				if pr == pa.Blocks[i-1] {
+					return ph.Edges[j]
+				}
+			}
+		}
+	}
+	return nil
+}
+
+// feasibleByPhis: false when the path crosses a comparison of a phi with a constant whose outcome
+// contradicts the constant operand the phi takes on this very path.
+func feasibleByPhis(pa engine.Path) bool {
+	for _, l := range pa.Lits {
+		if l.X == nil || l.Y == nil {
+			continue
+		}
+		x, y := l.X, l.Y
+		ph, isPhi := x.(*ssa.Phi)
+		swapped := false
+		if !isPhi {
+			ph, isPhi = y.(*ssa.Phi)
+			x, y = y, x
+			swapped = true
+		}
+		if !isPhi {
+			continue
+		}
+		kc, isC := y.(*ssa.Const)
+		if !isC {
+			continue
+		}
+		inc := phiIncomingOnPath(pa, ph)
+		if inc == nil {
+			continue
+		}
+		ic, incConst := inc.(*ssa.Const)
+		if kc.Value == nil { // nil test
+			if l.Op != token.EQL {
+				continue
+			}
+			isNil := incConst && ic.Value == nil
+			definitelyNot := false
+			switch inc.(type) {
+			case *ssa.IndexAddr, *ssa.FieldAddr, *ssa.Alloc, *ssa.MakeMap, *ssa.MakeSlice:
+				definitelyNot = true
+			}
+			if isNil && !l.Pos || definitelyNot && l.Pos {
+				return false
+			}
+			continue
+		}
+		if bo, isB := inc.(*ssa.BinOp); isB && !swapped && bo.Op == token.ADD && kc.Value.Kind() == constant.Int {
+			// a range index (phi starting at -1, +1 per iteration) is never negative
+			if rp, isRP := bo.X.(*ssa.Phi); isRP && rp.Comment == "rangeindex" {
+				if one, isOne := bo.Y.(*ssa.Const); isOne && one.Value != nil && one.Value.String() == "1" && constant.Sign(kc.Value) == 0 {
+					if l.Op == token.LSS && l.Pos || l.Op == token.GEQ && !l.Pos {
+						return false
+					}
+				}
+			}
+			continue
+		}
+		if !incConst || ic.Value == nil || kc.Value.Kind() != constant.Int || ic.Value.Kind() != constant.Int {
+			continue
+		}
+		a, b := ic.Value, kc.Value
+		if swapped {
+			a, b = b, a
+		}
+		if constant.Compare(a, l.Op, b) != l.Pos {
+			return false
+		}
+	}
+	return true
+}
+
+// r09_recordSet: addChild / removeChild keep revision.Children a set of names per (group, kind).
+func r09_recordSet(r *Report, p *Program, rule string) {
+	r.Rule(rule, "parentRevision.addChild / removeChild: the entry edited is the one whose APIGroup AND Kind equal the arguments; addChild starts a new entry ⇔ none matches and appends the name ⇔ it is not listed yet; removeChild removes the name ⇔ it is listed, and does nothing without a matching entry")
+	r.Floor(rule, 2)
+	for _, which := range []string{"addChild", "removeChild"} {
+		f := fn(r, p, rule, "controller/composite.parentRevision."+which)
+		if f == nil {
+			continue
+		}
+		storeTo := func(in ssa.Instruction) string {
+			st, isS := in.(*ssa.Store)
+			if !isS {
+				return ""
+			}
+			fa, isFA := st.Addr.(*ssa.FieldAddr)
+			if !isFA {
+				return ""
+			}
+			if n := fieldName(fa); n == "Names" || n == "Children" {
+				return n
+			}
+			return ""
+		}
+		paths, err := engine.EnumPaths(f, engine.EnumOpts{Effect: func(in ssa.Instruction) bool { return storeTo(in) != "" }})
+		ok, why := err == nil, ""
+		if err != nil {
+			why = err.Error()
+		}
+		nFeasible := 0
+		for _, pa := range paths {
+			if pa.EndKind != "return" || !feasibleByPhis(pa) {
+				continue
+			}
+			nFeasible++
+			gm := val(pa, -1, func(a string) bool { return strings.HasSuffix(a, ".APIGroup == p1)") })
+			km := val(pa, -1, func(a string) bool { return strings.HasSuffix(a, ".Kind == p2)") })
+			found := val(pa, -1, func(a string) bool { return strings.HasPrefix(a, "(p3 == ") && strings.Contains(a, ".Names[") })
+			matched := gm == 1 && km == 1
+			if gm == 2 || km == 2 || found == 2 {
+				continue
+			}
+			nNames, nChildren := 0, 0
+			for _, e := range pa.Effects {
+				if storeTo(e) == "Names" {
+					nNames++
+				} else {
+					nChildren++
+				}
+			}
+			var wantNames, wantChildren int
+			if which == "addChild" {
+				if !matched {
+					wantChildren = 1
+				}
+				if found != 1 {
+					wantNames = 1
+				}
+			} else {
+				if matched && found == 1 {
+					wantNames = 1
+				}
+			}
+			if nNames != wantNames || nChildren != wantChildren {
+				ok, why = false, sf("with entry-matches(group=%d, kind=%d) name-listed=%d the call stores Names %d× (want %d) and Children %d× (want %d); path: %s", gm, km, found, nNames, wantNames, nChildren, wantChildren, pa.Cond())
+			}
+		}
+		if nFeasible < 3 {
+			ok, why = false, "fewer feasible paths than the function's decisions require"
+		}
+		r.Check(rule, FK(f), p.Pos(f.Pos()), ok, "set semantics per (group, kind)", why)
 	}
 }
